@@ -54,7 +54,7 @@ func oraclesSx(src string, vals map[string]*val.Val) Sx {
 			all[s] = true
 		}
 		for _, v := range vals {
-			if v.Type.Kind.String() == "str" {
+			if v != nil && v.Type.Kind.String() == "str" {
 				all[v.Str().V] = true
 			}
 		}
